@@ -24,7 +24,7 @@ from harness import splink_util as su
 from harness.common import Ctx, REPO, coq_bool, coq_list, coq_nat, git_blob
 
 ALPHABET = [("predict",), ("detlink",), ("est_u", 1), ("em", 0), ("prior", 0), ("ctf", "first_name"),
-            ("rtf", "first_name", 1), ("fm",), ("c2", False), ("cluster", 0), ("inv",)]
+            ("rtf", "first_name", 1), ("fm",), ("c2", False), ("cluster", 0), ("inv",), ("acc_col",), ("m_col",)]
 
 
 # ----------------------------------------------------------------------------------------- probes
@@ -43,7 +43,13 @@ def probe_fixes(ctx: Ctx) -> dict:
     fx716 = not any(t == "__splink__blocked_id_pairs" for t, _ in hits)
     w.close()
     fx78 = realtime_flag_probe()
-    return {"fx77": fx77, "fx716": fx716, "fx78": fx78}
+    # 7.17: compute_graph_metrics twice must not raise and must track its bridges table
+    w = X.World("duckdb")
+    _, r1 = w.apply(("metrics", 0))
+    _, r2 = w.apply(("metrics", 0))
+    fx717 = r1 is None and r2 is None and any(k.startswith("__splink__bridges_") for k in w.cache.data)
+    w.close()
+    return {"fx77": fx77, "fx716": fx716, "fx78": fx78, "fx717": fx717, "graph_metrics_errors": [r1, r2]}
 
 
 # ----------------------------------------------------------------------------------------- histories
@@ -54,11 +60,14 @@ def gen_history(ctx: Ctx, n: int, fixes: dict) -> list[tuple]:
     hist = []
     for _ in range(n):
         k = rng.choices(
-            ["predict", "detlink", "est_u", "em", "prior", "ctf", "rtf", "fm", "c2", "cluster", "inv", "chg"],
-            [5, 2, 2, 2, 2, 3, 3, 2, 2, 2, 2, 2])[0]
+            ["predict", "detlink", "est_u", "em", "prior", "ctf", "rtf", "fm", "c2", "cluster", "inv", "chg",
+             "acc_col", "err_col", "acc_tab", "err_tab", "m_col", "m_pair", "unlink", "profile", "complete", "ba_count",
+             "ba_cum", "ba_nl", "multi", "metrics", "sbl"],
+            [5, 2, 2, 2, 2, 3, 3, 2, 2, 2, 2, 2,
+             3, 2, 2, 2, 2, 2, 1, 1, 1, 1, 1, 1, 1, 2 if fixes.get("fx717") else 0, 2])[0]
         if k == "est_u":
             hist.append((k, rng.choice([0, 1, 2])))
-        elif k in ("em", "prior", "cluster"):
+        elif k in ("em", "prior", "cluster", "ba_count", "ba_nl", "metrics", "sbl"):
             hist.append((k, rng.choice([0, 1])))
         elif k == "ctf":
             hist.append((k, rng.choice(X.TF_COLS)))
@@ -71,16 +80,25 @@ def gen_history(ctx: Ctx, n: int, fixes: dict) -> list[tuple]:
     return hist
 
 
-def run_history(ctx: Ctx, backend: str, hist: list[tuple], fixes: dict, avoid_findings: bool = True):
+def run_history(ctx: Ctx, backend: str, hist: list[tuple], fixes: dict, avoid_findings: bool = True, probe_op=None,
+                link: bool = False):
     """Runs the history on a real linker.  Returns dict with the Coq case and the oracle result."""
-    w = X.World(backend)
-    init = X.coq_init(w.table, w.version, w.tfcols, w.params, fixes)
+    w = X.World(backend, link=link)
+    init = X.coq_init(w.tables, w.version, w.tfcols, w.params, fixes)
     steps, done, raised = [], [], None
     for op in hist:
         if avoid_findings and op[0] == "rtf" and not fixes["fx77"] and "__splink__df_concat_with_tf" in w.cache \
                 and op[1] not in w.registered:
             # finding class (a) (DESIGN 7.7) is exercised by its own witness replay
             op = ("inv",)
+        if op[0] == "complete" and backend == "sqlite":
+            op = ("predict",)      # completeness_chart emits SQL that SQLite cannot parse (loud, outside C07)
+        if op[0] == "sbl" and not link:
+            op = ("cluster", op[1])  # single best links needs source datasets (link world)
+        if link and op[0] in ("multi", "metrics"):
+            op = ("sbl", 0)        # these take a single node table / id column here: dedupe world only
+        if link and backend == "sqlite" and op[0] in ("acc_tab", "err_tab", "m_pair"):
+            op = ("acc_col",)      # labels-table SQL uses CONCAT(), which SQLite lacks (loud, outside C07)
         w.reset_trackers()
         term, raised = w.apply(op)
         if raised:
@@ -88,14 +106,28 @@ def run_history(ctx: Ctx, backend: str, hist: list[tuple], fixes: dict, avoid_fi
             break
         steps.append((term, w.observe()))
         done.append(op)
-    res = {"backend": backend, "history": done, "raised": raised, "init": init, "steps": steps}
+    res = {"backend": backend, "history": done, "raised": raised, "init": init, "steps": steps, "link": link}
+    if probe_op is not None:
+        if probe_op[0] == "sbl" and not link:
+            probe_op = ("cluster", 0)
+        if link and (probe_op[0] == "multi" or (backend == "sqlite" and probe_op[0] in ("acc_tab", "err_tab"))):
+            probe_op = ("sbl", 0)
     if raised is None:
         a = w.predict_rows()
         f = w.fresh()
         b = f.predict_rows()
-        f.close()
         res["diff"] = X.rows_diff(a, b)
         res["n_rows"] = len(a)
+        if res["diff"] is None and probe_op is not None:
+            # a second table-returning operation: its output must be that of the fresh linker too
+            try:
+                d2 = X.table_diff(w.output_rows(probe_op), f.output_rows(probe_op))
+            except Exception as e:  # noqa: BLE001
+                d2 = {"why": "raised", "error": f"{type(e).__name__}: {e}"[:400]}
+            if d2 is not None:
+                res["diff"] = {"operation": probe_op, **d2}
+            res["probe_op"] = probe_op
+        f.close()
     w.close()
     return res
 
@@ -116,7 +148,7 @@ def classify(hist: list[tuple]) -> dict:
     return feats
 
 
-def shrink(ctx: Ctx, backend: str, hist: list[tuple], fixes: dict, bad) -> list[tuple]:
+def shrink(ctx: Ctx, backend: str, hist: list[tuple], fixes: dict, bad, probe_op=None, link=False) -> list[tuple]:
     """Greedy removal of operations while `bad(result)` stays true."""
     cur = list(hist)
     changed = True
@@ -127,7 +159,7 @@ def shrink(ctx: Ctx, backend: str, hist: list[tuple], fixes: dict, bad) -> list[
             cand = cur[:i] + cur[i + 1:]
             budget -= 1
             try:
-                r = run_history(ctx, backend, cand, fixes, avoid_findings=False)
+                r = run_history(ctx, backend, cand, fixes, avoid_findings=False, probe_op=probe_op, link=link)
             except Exception:  # noqa: BLE001
                 continue
             if bad(r):
@@ -163,22 +195,24 @@ def diagnose(ctx: Ctx, r: dict) -> str:
 def history_stage(ctx: Ctx, fixes: dict):
     results = []
     # seeded random histories
-    n_duck, n_sqlite = (14, 5) if ctx.quick else (120, 40)
+    n_duck, n_sqlite = (12, 4) if ctx.quick else (120, 40)
     maxlen = 12 if ctx.quick else 25
     for backend, n in (("duckdb", n_duck), ("sqlite", n_sqlite)):
         for _ in range(n):
             hist = gen_history(ctx, ctx.rng.randint(3, maxlen), fixes)
-            r = run_history(ctx, backend, hist, fixes)
+            r = run_history(ctx, backend, hist, fixes, probe_op=ctx.rng.choice(X.TABLE_OPS), link=ctx.rng.random() < 0.3)
             r["kind"] = "random"
+            ctx.hist("world", "link_and_dedupe, 2 tables" if r["link"] else "dedupe_only")
+            ctx.hist("probe_op", r.get("probe_op", ("none",))[0])
             results.append(r)
     # exhaustive short histories over the alphabet
     depth = 2 if ctx.quick else 3
     for d in range(1, depth + 1):
         for hist in itertools.product(ALPHABET, repeat=d):
-            if ctx.quick and d == 2 and ctx.rng.random() < 0.35:
-                # quick tier: a seeded 65% sample of the 121 pairs (all of them in the thorough tier)
+            if ctx.quick and d == 2 and ctx.rng.random() < 0.55:
+                # quick tier: a seeded 45% sample of the 169 pairs (all of them in the thorough tier)
                 continue
-            r = run_history(ctx, "duckdb", list(hist), fixes)
+            r = run_history(ctx, "duckdb", list(hist), fixes, probe_op=ctx.rng.choice(X.TABLE_OPS) if d == 1 else None)
             r["kind"] = f"exhaustive{d}"
             results.append(r)
     ctx.log(f"histories run: {len(results)}")
@@ -196,16 +230,19 @@ def history_stage(ctx: Ctx, fixes: dict):
     for r in results:
         if r["raised"]:
             ctx.violation("a public operation raised inside a valid history",
-                          {"case": r["history"], "backend": r["backend"], "implementation": r["raised"],
+                          {"case": r["history"], "backend": r["backend"], "link": r["link"], "implementation": r["raised"],
                            "specification": "no exception"},
                           {"raised": True, **classify(r["history"])})
     ok_results = [r for r in results if not r["raised"]]
     # 2. property oracle on the implementation alone
     for r in ok_results:
         if r["diff"] is not None:
-            small = shrink(ctx, r["backend"], r["history"], fixes, lambda q: q.get("raised") is None and q.get("diff") is not None)
-            ctx.violation("predict() after the history differs from predict() of a fresh linker built from the saved model",
-                          {"case": small, "original_history": r["history"], "backend": r["backend"],
+            small = shrink(ctx, r["backend"], r["history"], fixes, lambda q: q.get("raised") is None and q.get("diff") is not None,
+                           probe_op=r.get("probe_op"), link=r["link"])
+            ctx.violation("predict() (or the table returned by the probe operation) after the history differs from that of a fresh "
+                          "linker built from the saved model",
+                          {"case": small, "original_history": r["history"], "backend": r["backend"], "probe_op": r.get("probe_op"),
+                           "link": r["link"],
                            "implementation": r["diff"], "specification": "row-by-row equal (tol 1e-9)"},
                           classify(small))
     ctx.obligation("oracle: predict() equals fresh linker on every generated history",
@@ -217,11 +254,11 @@ def history_stage(ctx: Ctx, fixes: dict):
     for i in bad[:3]:
         r = ok_results[i]
         small = shrink(ctx, r["backend"], r["history"], fixes,
-                       lambda q: q.get("raised") is None and bool(evaluate(ctx, "C07_shrink", [q])[0]))
-        rs = run_history(ctx, r["backend"], small, fixes, avoid_findings=False)
+                       lambda q: q.get("raised") is None and bool(evaluate(ctx, "C07_shrink", [q])[0]), link=r["link"])
+        rs = run_history(ctx, r["backend"], small, fixes, avoid_findings=False, link=r["link"])
         ctx.violation("cache decisions of the implementation differ from the model (executed names / cache hits / cache "
                       "content after an operation, or the model's predict-vs-fresh verdict)",
-                      {"case": small, "original_history": r["history"], "backend": r["backend"],
+                      {"case": small, "original_history": r["history"], "backend": r["backend"], "link": r["link"],
                        "implementation": [(t, o) for t, o in rs["steps"]], "implementation_oracle_diff": rs.get("diff"),
                        "specification": diagnose(ctx, rs)},
                       {"model_mismatch": True, **classify(small)})
@@ -255,6 +292,14 @@ def witness_stage(ctx: Ctx, fixes: dict):
     two_linkers(ctx, fixes)
     # (d) 7.16 estimate_u unseeded twice
     estimate_u_twice(ctx)
+    # (e) 7.17 compute_graph_metrics twice on one linker
+    if not fixes["fx717"]:
+        ctx.violation("compute_graph_metrics called twice with the same inputs on one linker raises (or leaves an untracked "
+                      "__splink__bridges_<hash> table): the second call depends on the first",
+                      {"case": [("metrics", 0), ("metrics", 0)], "backend": "duckdb", "implementation": fixes["graph_metrics_errors"],
+                       "specification": "the second call returns what a fresh linker returns"},
+                      {"history_class": "compute_graph_metrics_twice"})
+    ctx.expect_known("KF-C07-graph-metrics-twice", not fixes["fx717"], "compute_graph_metrics can be repeated")
     # a NEW DatabaseAPI on a database that still holds another API's tables (persistent database reopened
     # after the input rows changed): the uid in the hash must keep the old tables from being found
     new_api_same_database(ctx)
@@ -264,9 +309,43 @@ def witness_stage(ctx: Ctx, fixes: dict):
     bad, errs, _ = evaluate(ctx, "C07_wc", [r])
     ctx.obligation("input change without invalidate_cache: model predicts the stale result the implementation returns",
                    not bad and not errs and r["diff"] is not None, "; ".join(errs)[:800])
+    # the DB-existence fallback returns stale rows once a cleanup leaves a result table behind (model variant
+    # InvalidateKeepingResults, theorem C07_invalidate_reflects_new_data_refuted_when_results_are_retained): the mechanism
+    # is replayed on the real code by forgetting the cache entries of df_predict before the real invalidate_cache
+    retained_results_mechanism(ctx, fixes)
     # invalidate_cache reflects new data
     r = run_history(ctx, "duckdb", [("predict",), ("chg",), ("predict",)], fixes)
     ctx.obligation("invalidate_cache reflects changed input data (oracle)", r["diff"] is None and r["raised"] is None)
+
+
+def retained_results_mechanism(ctx: Ctx, fixes: dict):
+    for backend in ("duckdb", "sqlite"):
+        w = X.World(backend)
+        init = X.coq_init(w.table, w.version, w.tfcols, w.params, fixes)
+        steps = []
+        for op in (("predict",), ("chg_bare",)):
+            w.reset_trackers()
+            term, _ = w.apply(op)
+            steps.append((term, w.observe()))
+        for k in [k for k in w.cache.data if k.startswith("__splink__df_predict_")]:
+            del w.cache.data[k]
+        w.reset_trackers()
+        w.linker.table_management.invalidate_cache()
+        steps.append(("InvalidateKeepingResults", w.observe()))
+        w.reset_trackers()
+        term, raised = w.apply(("predict",))
+        steps.append((term, w.observe()))
+        a = w.predict_rows()
+        f = w.fresh()
+        d = X.rows_diff(a, f.predict_rows())
+        f.close()
+        w.close()
+        r = {"init": init, "steps": steps, "guard": False, "diff": d}
+        bad, errs, _ = evaluate(ctx, "C07_wr", [r])
+        ctx.count_case(("retained_results", backend), True, {"scenario": "retained_result_table", "backend": backend, "stale": d is not None})
+        ctx.obligation(f"retained result table + unchanged _cache_uid: the implementation serves the stale table through the "
+                       f"DB-existence fallback exactly as the model variant predicts ({backend})",
+                       raised is None and d is not None and not bad and not errs, "; ".join(errs)[:600])
 
 
 def two_linkers(ctx: Ctx, fixes: dict):
@@ -504,8 +583,11 @@ def run(ctx: Ctx):
     ctx.cov["rule"] = (
         "histories: seeded sequences (length 3..12 quick, ..25 thorough) over predict, deterministic_link, estimate_u, EM, "
         "estimate_probability_two_random_records_match, compute_tf_table, register_term_frequency_lookup, "
-        "find_matches_to_new_records, compare_two_records, cluster, invalidate_cache and input change + invalidate_cache on "
-        "DuckDB and SQLite, plus all histories of length <= 3 (thorough; <= 2 sampled 65% quick) over an 11-letter alphabet; "
+        "find_matches_to_new_records, compare_two_records, cluster, accuracy_analysis_from_labels_column/_table, "
+        "prediction_errors_from_labels_column/_table, estimate_m_from_label_column, estimate_m_from_pairwise_labels, unlinkables, "
+        "profile_columns, completeness_chart, blocking-analysis functions, multi-threshold clustering, single best links, "
+        "compute_graph_metrics, invalidate_cache and input change + invalidate_cache on "
+        "DuckDB and SQLite, plus all histories of length <= 3 (thorough; <= 2 sampled 45% quick) over a 13-letter alphabet; 30% of the random histories run in a link_and_dedupe world with two input tables; every random history ends with a second table-returning probe operation compared with the fresh linker; "
         "a history is non-trivial when it has >= 2 kinds of operation and at least one cache hit; distinct by "
         "(backend, history). Realtime: sequences of compare_records calls over 3 settings x flag x cache mode.")
     ctx.trusted += [
@@ -532,7 +614,8 @@ def run(ctx: Ctx):
         case = rp.get("case")
         if isinstance(case, list) and case and isinstance(case[0], list) and isinstance(case[0][0], str):
             hist = [tuple(o) for o in case]
-            r = run_history(ctx, rp.get("backend", "duckdb"), hist, fixes, avoid_findings=False)
+            r = run_history(ctx, rp.get("backend", "duckdb"), hist, fixes, avoid_findings=False,
+                            probe_op=tuple(rp["probe_op"]) if rp.get("probe_op") else None, link=bool(rp.get("link")))
             bad, errs, _ = evaluate(ctx, "C07_replay", [r] if not r["raised"] else [])
             ctx.log(f"replay: raised={r['raised']} diff={r.get('diff')} model_mismatch={bool(bad)}")
             if r["raised"] or r.get("diff") is not None or bad:
